@@ -205,15 +205,26 @@ theorem bal_cmd (fuel : Nat) (ih : Bal fuel) : ∀ s c, (execCmd (fuel+1) s c).1
   | unknown => simp [execCmd]
   | absent w r a => simp [execCmd]
   | tick c k => simp only [execCmd]; split <;> simp
-  | call name =>
+  | setParams n => simp [execCmd]
+  | freeze name => simp only [execCmd]; split <;> simp
+  | forRo values => simp only [execCmd]; split <;> simp
+  | forPos body =>
+    simp only [execCmd]
+    split
+    · simp
+    · have h1 := ih.for_ (s.push .loop) s.params body
+      generalize execFor fuel (s.push .loop) s.params body = x at *
+      obtain ⟨s1, r⟩ := x
+      simp_all
+  | call name nargs =>
     simp only [execCmd]
     split
     · simp
     · simp
     · simp
     · rename_i body _
-      have h1 := ih.cmd s body
-      generalize execCmd fuel s body = x at *
+      have h1 := ih.cmd { s with params := nargs } body
+      generalize execCmd fuel { s with params := nargs } body = x at *
       obtain ⟨s1, r⟩ := x
       simp only at h1
       split
@@ -221,7 +232,7 @@ theorem bal_cmd (fuel : Nat) (ih : Bal fuel) : ∀ s c, (execCmd (fuel+1) s c).1
         cases e <;> simp [h1]
       · simp [h1]
     · simp
-  | fundef name body => simp [execCmd]
+  | fundef name body => simp only [execCmd]; split <;> simp
   | expErr => simp [execCmd]
   | assignErr => simp [execCmd]
   | redirErr k => simp only [execCmd]; cases k <;> simp
